@@ -3,20 +3,36 @@
 (*                                                                                              *)
 (*   services/beaconcommitteesubscriber/standard/subscribe.go        Subscribe                  *)
 (*   services/attestationaggregator/standard/service.go              AggregatorsAndSignatures   *)
-(*   services/controller/standard/events.go                          subscribeToBeaconCommittees*)
+(*   services/controller/standard/events.go      HandleHeadEvent, refreshAttesterDutiesForEpoch,*)
+(*                                               subscribeToBeaconCommittees                    *)
 (*   services/controller/standard/attester.go                        AttestAndScheduleAggregate *)
+(*                                                                                              *)
+(* One epoch (geo.ep) of attester duties and the controller's subscription-info STORE for that  *)
+(* epoch, with its history.                                                                     *)
 (*                                                                                              *)
 (* Environment (independently enabled):                                                         *)
 (*   AddDuty(d)        the beacon node's attester-duty oracle for the epoch gains a duty; the   *)
 (*                     record also fixes the committee size and the scalar h of the slot        *)
 (*                     signature the signer will give for (validator, slot)                     *)
+(*   DropDuty(d)       the oracle loses a duty (a re-org; only after Vouch has acted on it)     *)
 (*   Advance(t)        the clock                                                                *)
 (* Vouch:                                                                                       *)
-(*   SubscribeWith(I,S) Subscribe for the epoch: I is the subscription info handed back to the  *)
-(*                     controller (and stored by it), S the subscriptions submitted to the node *)
-(*   AttestJob(s,C,ok) the attestation job of slot s: the attester made attestations for the    *)
-(*                     committees C (ok) or failed (~ok); aggregation jobs are set up from the  *)
-(*                     stored subscription info                                                 *)
+(*   SubscribeWith(I,S) a synchronous Subscribe for the epoch (epoch preparation): I is the     *)
+(*                     subscription info handed back to the controller and STORED by it, S the  *)
+(*                     subscriptions submitted to the node                                      *)
+(*   SubscribeFail     the same call failing (beacon node error): the store is not touched      *)
+(*   Refresh           a head event with a changed duty dependent root that concerns the epoch  *)
+(*                     (refreshAttesterDutiesForEpoch): the attestation jobs are cancelled and  *)
+(*                     re-made, and a re-subscription is started ASYNCHRONOUSLY; the store keeps*)
+(*                     what it has                                                              *)
+(*   ResubOk(I,S)      a re-subscription in flight completes: it fetches the duties as they are *)
+(*                     now, the store is REPLACED by the new info                               *)
+(*   ResubFail         a re-subscription in flight fails: the store KEEPS the previous info     *)
+(*   Housekeep         a head event two or more epochs later: the epoch's info may be dropped   *)
+(*   AttestJob(s,C,ok) the attestation job of slot s, at ANY point of that history: the attester*)
+(*                     made attestations for the committees C (ok) or failed (~ok); aggregation *)
+(*                     jobs are set up from the info IN FORCE = the most recently stored        *)
+(*                     successful subscription result (never absent once there was one)         *)
 (*                                                                                              *)
 (* h is the little-endian uint64 of the first eight bytes of SHA-256 of the slot signature,     *)
 (* reduced modulo HMod (hashing stays in Go; every modulus that occurs divides HMod, so         *)
@@ -32,25 +48,37 @@ CONSTANTS Validators,     \* validator indices
           HVals,          \* values of h the environment may choose
           HMod,           \* h is given modulo HMod
           MaxDuties,      \* bound on the size of the duty oracle
-          MaxSubs         \* bound on the number of Subscribe calls for the epoch
+          MaxSubs,        \* bound on the number of synchronous Subscribe calls for the epoch
+          SPE,            \* slots per epoch
+          Ep,             \* the epoch of the duties (all of SlotSpace lies in it)
+          MaxRefresh,     \* bound on the number of refreshes (re-org head events) for the epoch
+          MaxChanges      \* bound on the oracle changes after Vouch has acted on the oracle
 
 VARIABLES now,        \* current slot
           target,     \* TARGET_AGGREGATORS_PER_COMMITTEE
+          geo,        \* [spe, ep]: slots per epoch and the epoch of the duties (fixed per behaviour)
           duties,     \* duty oracle: set of [v, slot, committee, size, h]
-          started,    \* the oracle is frozen once Vouch has acted on it
-          info,       \* stored subscription info: set of [slot, committee, v, agg]
-          submitted,  \* subscriptions handed to the beacon node: set of [slot, committee, v, agg]
-          subAt,      \* slot at which the last Subscribe ran (NoSub if none)
-          jobs,       \* aggregation jobs ever set up: set of [slot, committee, v, at]
-          nsub,       \* number of Subscribe calls so far
+          started,    \* Vouch has acted on the oracle (later oracle changes are re-orgs)
+          info,       \* the STORE: subscription info in force for the epoch: set of [slot, committee, v, agg]
+          infoD,      \* the oracle the info in force was calculated from
+          submitted,  \* subscriptions handed to the beacon node by the last successful Subscribe
+          subAt,      \* slot at which the last successful Subscribe ran (NoSub if none in force)
+          nsub,       \* number of synchronous Subscribe calls so far
+          inflight,   \* re-subscriptions started by a refresh and not yet finished
+          nref,       \* number of refreshes so far
+          nchg,       \* number of oracle changes after started
+          jobs,       \* aggregation jobs ever set up: set of [slot, committee, v, at, exact]
           attests,    \* successful attestations: set of [slot, committee, expect]
           done        \* slots whose attestation job has run (a job runs once, property C02/C03)
 
-vars == <<now, target, duties, started, info, submitted, subAt, nsub, jobs, attests, done>>
+vars == <<now, target, geo, duties, started, info, infoD, submitted, subAt, nsub, inflight, nref, nchg,
+          jobs, attests, done>>
 
 NoSub == -1
 
 Max(a, b) == IF a >= b THEN a ELSE b
+
+EpochOf(s) == s \div geo.spe
 
 -----------------------------------------------------------------------------
 (* The consensus specification's rule (is_aggregator).                                          *)
@@ -78,9 +106,12 @@ ValidInfo(I, D, t, tgt) ==
 
 FutureOf(I, t) == {e \in I : e.slot > t}
 
-\* a validator has one signature per slot, and a committee one size
+\* a validator has one signature per slot (whatever the oracle says: a re-org does not change it)
+HConsistent(d, D) == \A x \in D : (x.v = d.v /\ x.slot = d.slot) => x.h = d.h
+
+\* ... one duty per slot, and a committee one size
 DutyConsistent(d, D) ==
-    /\ \A x \in D : (x.v = d.v /\ x.slot = d.slot) => x.h = d.h
+    /\ HConsistent(d, D)
     /\ \A x \in D : (x.v = d.v /\ x.slot = d.slot /\ x.committee = d.committee) => x = d
     /\ \A x \in D : SamePair(x, d) => x.size = d.size
 
@@ -88,55 +119,125 @@ DutyConsistent(d, D) ==
 Init ==
     /\ now \in Nows
     /\ target \in Targets
+    /\ geo = [spe |-> SPE, ep |-> Ep]
     /\ duties = {}
     /\ started = FALSE
     /\ info = {}
+    /\ infoD = {}
     /\ submitted = {}
     /\ subAt = NoSub
     /\ nsub = 0
+    /\ inflight = 0
+    /\ nref = 0
+    /\ nchg = 0
     /\ jobs = {}
     /\ attests = {}
     /\ done = {}
 
+\* before Vouch has acted: the oracle is being built; afterwards: a re-org changes it
 AddDuty(d) ==
-    /\ ~started
+    /\ started => nchg < MaxChanges
     /\ Cardinality(duties) < MaxDuties
     /\ d \notin duties
     /\ DutyConsistent(d, duties)
+    /\ HConsistent(d, infoD)
     /\ duties' = duties \cup {d}
-    /\ UNCHANGED <<now, target, started, info, submitted, subAt, nsub, jobs, attests, done>>
+    /\ nchg' = IF started THEN nchg + 1 ELSE nchg
+    /\ UNCHANGED <<now, target, geo, started, info, infoD, submitted, subAt, nsub, inflight, nref, jobs, attests, done>>
+
+DropDuty(d) ==
+    /\ started /\ nchg < MaxChanges
+    /\ d \in duties
+    /\ duties' = duties \ {d}
+    /\ nchg' = nchg + 1
+    /\ UNCHANGED <<now, target, geo, started, info, infoD, submitted, subAt, nsub, inflight, nref, jobs, attests, done>>
 
 Advance(t) ==
     /\ t \in Nows /\ t > now
     /\ now' = t
-    /\ UNCHANGED <<target, duties, started, info, submitted, subAt, nsub, jobs, attests, done>>
+    /\ UNCHANGED <<target, geo, duties, started, info, infoD, submitted, subAt, nsub, inflight, nref, nchg, jobs, attests, done>>
 
+\* A successful Subscribe (synchronous or the completion of a re-subscription): the info is
+\* calculated from the oracle as it is now and REPLACES what the store held for the epoch.
 \* The property obliges Vouch to subscribe every future pair; whether pairs that are not in the
 \* future are sent as well is left open (S may be any set between the future part and all of I).
-SubscribeWith(I, S) ==
-    /\ nsub < MaxSubs
-    /\ nsub' = nsub + 1
+StoreWith(I, S) ==
     /\ ValidInfo(I, duties, now, target)
     /\ FutureOf(I, now) \subseteq S
     /\ S \subseteq I
     /\ info' = I
-    /\ submitted' = submitted \cup S
+    /\ infoD' = duties
+    /\ submitted' = S
     /\ subAt' = now
     /\ started' = TRUE
-    /\ UNCHANGED <<now, target, duties, jobs, attests, done>>
+
+SubscribeWith(I, S) ==
+    /\ nsub < MaxSubs
+    /\ nsub' = nsub + 1
+    /\ StoreWith(I, S)
+    /\ UNCHANGED <<now, target, geo, duties, inflight, nref, nchg, jobs, attests, done>>
 
 Subscribe ==
     \E I \in SUBSET Entries(duties, target) : \E S \in SUBSET I : SubscribeWith(I, S)
 
-\* some validator of Vouch with a duty in (s, c) is a selected aggregator
-PairAggregates(s, c) == \E d \in DutiesAt(duties, s, c) : DutyAggregates(d, target)
+\* the beacon node (or the signer) fails the call: nothing is stored, the info in force stays
+SubscribeFail ==
+    /\ nsub < MaxSubs
+    /\ nsub' = nsub + 1
+    /\ started' = TRUE
+    /\ UNCHANGED <<now, target, geo, duties, info, infoD, submitted, subAt, inflight, nref, nchg, jobs, attests, done>>
+
+\* A head event whose previous (current) duty dependent root differs concerns the current (next)
+\* epoch: refreshAttesterDutiesForEpoch cancels and re-makes the attestation jobs and starts a
+\* re-subscription on its own goroutine.  The store is left as it is: the info in force stays in
+\* force until a re-subscription has SUCCEEDED.
+Refresh ==
+    /\ nref < MaxRefresh
+    /\ EpochOf(now) \in {geo.ep - 1, geo.ep}
+    /\ nref' = nref + 1
+    /\ inflight' = inflight + 1
+    /\ started' = TRUE
+    /\ UNCHANGED <<now, target, geo, duties, info, infoD, submitted, subAt, nsub, nchg, jobs, attests, done>>
+
+ResubOk(I, S) ==
+    /\ inflight > 0
+    /\ inflight' = inflight - 1
+    /\ StoreWith(I, S)
+    /\ UNCHANGED <<now, target, geo, duties, nsub, nref, nchg, jobs, attests, done>>
+
+Resub ==
+    \E I \in SUBSET Entries(duties, target) : \E S \in SUBSET I : ResubOk(I, S)
+
+ResubFail ==
+    /\ inflight > 0
+    /\ inflight' = inflight - 1
+    /\ UNCHANGED <<now, target, geo, duties, started, info, infoD, submitted, subAt, nsub, nref, nchg, jobs, attests, done>>
+
+\* HandleHeadEvent removes the info of the epoch two before the head's: allowed (no attestation
+\* job of that epoch can be in its slot any more)
+Housekeep ==
+    /\ EpochOf(now) >= geo.ep + 2
+    /\ subAt # NoSub
+    /\ info' = {}
+    /\ infoD' = {}
+    /\ submitted' = {}
+    /\ subAt' = NoSub
+    /\ UNCHANGED <<now, target, geo, duties, started, nsub, inflight, nref, nchg, jobs, attests, done>>
+
+\* some validator of Vouch with a duty in (s, c) of oracle D is a selected aggregator
+PairAggregatesIn(D, s, c) == \E d \in DutiesAt(D, s, c) : DutyAggregates(d, target)
+
+\* the validator of an aggregation job is a selected aggregator of its pair (by the oracle the
+\* info in force was calculated from)
+JobExact(e) == \E d \in DutiesAt(infoD, e.slot, e.committee) : d.v = e.v /\ DutyAggregates(d, target)
 
 NewJobs(s, C) ==
     IF s < now THEN {}
-    ELSE {[slot |-> s, committee |-> e.committee, v |-> e.v, at |-> now] :
+    ELSE {[slot |-> s, committee |-> e.committee, v |-> e.v, at |-> now, exact |-> JobExact(e)] :
               e \in {x \in info : x.slot = s /\ x.committee \in C /\ x.agg}}
 
-\* the attestation job of slot s runs in slot s or (late) after it, once
+\* the attestation job of slot s runs in slot s or (late) after it, once; it works on the info in
+\* force, whatever refresh or re-subscription is under way
 AttestJob(s, C, ok) ==
     /\ s <= now /\ s \notin done
     /\ ok \/ C = {}
@@ -144,17 +245,23 @@ AttestJob(s, C, ok) ==
     /\ jobs' = IF ok THEN jobs \cup NewJobs(s, C) ELSE jobs
     /\ attests' = IF ok
                   THEN attests \cup {[slot |-> s, committee |-> c,
-                                      expect |-> subAt # NoSub /\ s >= now /\ PairAggregates(s, c)] : c \in C}
+                                      expect |-> subAt # NoSub /\ s >= now /\ PairAggregatesIn(infoD, s, c)] : c \in C}
                   ELSE attests
     /\ started' = TRUE
-    /\ UNCHANGED <<now, target, duties, info, submitted, subAt, nsub>>
+    /\ UNCHANGED <<now, target, geo, duties, info, infoD, submitted, subAt, nsub, inflight, nref, nchg>>
 
 DutySpace == [v : Validators, slot : SlotSpace, committee : Committees, size : Sizes, h : HVals]
 
 Next ==
     \/ \E d \in DutySpace : AddDuty(d)
+    \/ \E d \in duties : DropDuty(d)
     \/ \E t \in Nows : Advance(t)
     \/ Subscribe
+    \/ SubscribeFail
+    \/ Refresh
+    \/ Resub
+    \/ ResubFail
+    \/ Housekeep
     \/ \E s \in SlotSpace : \E C \in SUBSET Committees : \E ok \in BOOLEAN : AttestJob(s, C, ok)
 
 Spec == Init /\ [][Next]_vars
@@ -163,29 +270,34 @@ Spec == Init /\ [][Next]_vars
 TypeOK ==
     /\ now \in Nows
     /\ target \in Targets
-    /\ \A d \in duties : d.h \in 0..(HMod - 1) /\ d.size >= 1
+    /\ inflight \in 0..MaxRefresh
+    /\ \A d \in duties : d.h \in 0..(HMod - 1) /\ d.size >= 1 /\ EpochOf(d.slot) = geo.ep
     /\ \A tgt \in Targets : \A z \in Sizes : HMod % Modulus(z, tgt) = 0
 
 \* C14: a subscription is submitted for every slot/committee pair with a duty in a slot after
 \* the current one -- whatever other duties of the epoch lie in the past
 AllFutureSubscribed ==
     subAt # NoSub =>
-        \A d \in duties : d.slot > subAt => \E e \in submitted : SamePair(e, d)
+        \A d \in infoD : d.slot > subAt => \E e \in submitted : SamePair(e, d)
 
 \* C14: a validator is marked as aggregator exactly when the selection rule says so (in what is
 \* sent to the node, in what the controller stores, and in the jobs that are set up)
 AggregatorRuleExact ==
     /\ \A e \in submitted \cup info :
-          \E d \in DutiesAt(duties, e.slot, e.committee) : d.v = e.v /\ e.agg = DutyAggregates(d, target)
-    /\ \A j \in jobs :
-          \E d \in DutiesAt(duties, j.slot, j.committee) : d.v = j.v /\ DutyAggregates(d, target)
+          \E d \in DutiesAt(infoD, e.slot, e.committee) : d.v = e.v /\ e.agg = DutyAggregates(d, target)
+    /\ \A j \in jobs : j.exact
 
 \* a pair that has a selected aggregator is stored as aggregating
 InfoPrefersAggregator ==
-    \A e \in info : PairAggregates(e.slot, e.committee) => e.agg
+    \A e \in info : PairAggregatesIn(infoD, e.slot, e.committee) => e.agg
+
+\* the info in force is never absent once there was one (until housekeeping): it covers every
+\* pair of its oracle from the slot of the subscription on
+InfoInForceComplete ==
+    subAt # NoSub => \A d \in infoD : d.slot >= subAt => \E e \in info : SamePair(e, d)
 
 \* C14: after attesting, an aggregation job for every committee of the slot in which one of
-\* Vouch's validators is a selected aggregator
+\* Vouch's validators is a selected aggregator -- at whatever point of a refresh the job ran
 EveryAggregatorCommitteeScheduled ==
     \A a \in attests : a.expect => \E j \in jobs : j.slot = a.slot /\ j.committee = a.committee
 
